@@ -83,28 +83,23 @@ theorem iad_leaf (seen : List Tok) (name : Tok) (dc sc : Bool) (n : Tok) (t : τ
     isActiveDefault seen name dc sc (.leaf n t d m :: r) =
       if n = name then (dc || sc || isActiveDefault seen name dc sc r) else isActiveDefault seen name dc sc r := by
   conv => lhs; rw [isActiveDefault.eq_def]
-  rfl
 theorem iad_leafList (seen : List Tok) (name : Tok) (dc sc : Bool) (n : Tok) (t : τ) (mn : Nat) (mx : Option Nat) (r : List (SN τ)) :
     isActiveDefault seen name dc sc (.leafList n t mn mx :: r) =
       if n = name then (dc || sc || isActiveDefault seen name dc sc r) else isActiveDefault seen name dc sc r := by
   conv => lhs; rw [isActiveDefault.eq_def]
-  rfl
 theorem iad_container (seen : List Tok) (name : Tok) (dc sc : Bool) (n : Tok) (p : Bool) (k r : List (SN τ)) :
     isActiveDefault seen name dc sc (.container n p k :: r) =
       if n = name then (dc || sc || isActiveDefault seen name dc sc r) else isActiveDefault seen name dc sc r := by
   conv => lhs; rw [isActiveDefault.eq_def]
-  rfl
 theorem iad_list (seen : List Tok) (name : Tok) (dc sc : Bool) (n : Tok) (ks : List Tok) (mn : Nat) (mx : Option Nat)
     (u : List (List (List Tok))) (k r : List (SN τ)) :
     isActiveDefault seen name dc sc (.list n ks mn mx u k :: r) =
       if n = name then (dc || sc || isActiveDefault seen name dc sc r) else isActiveDefault seen name dc sc r := by
   conv => lhs; rw [isActiveDefault.eq_def]
-  rfl
 theorem iad_case (seen : List Tok) (name : Tok) (dc sc : Bool) (n : Tok) (k r : List (SN τ)) :
     isActiveDefault seen name dc sc (.case n k :: r) =
       if n = name then (dc || sc || isActiveDefault seen name dc sc r) else isActiveDefault seen name dc sc r := by
   conv => lhs; rw [isActiveDefault.eq_def]
-  rfl
 
 theorem iadc_nil (seen : List Tok) (name : Tok) (dflt : Option Tok) :
     isActiveDefaultCase seen name dflt ([] : List (SN τ)) = false := by rw [isActiveDefaultCase]
@@ -144,5 +139,900 @@ theorem iad_notin (seen : List Tok) (name : Tok) (dc sc : Bool) : ∀ (l : List 
       simp only [names, dataKids, List.map_cons, List.mem_cons, not_or, SN.name] at h ⊢
       exact h
     rw [iad_case, if_neg (fun e => h'.1 e.symm)]; exact iad_notin seen name dc sc r h'.2
+
+/-! ### `createDefault`, unfolded; nothing comes from a schema without defaults -/
+
+theorem createDefault_leaf (n : Tok) (t : τ) (d : Option Bytes) (m : Bool) :
+    createDefault (.leaf n t d m : SN τ) =
+      (match d, m with
+       | some dv, false => some (.mk n [] [dv])
+       | _, _ => none) := by
+  cases d <;> cases m <;> simp [createDefault]
+
+theorem createDefault_container (n : Tok) (pr : Bool) (kids : List (SN τ)) :
+    createDefault (.container n pr kids) =
+      if pr then none
+      else if (createDefaults kids kids).isEmpty then none else some (.mk n (createDefaults kids kids) []) := by
+  cases pr <;> simp [createDefault]
+
+theorem createDefault_list (n : Tok) (ks : List Tok) (mn : Nat) (mx : Option Nat) (u : List (List (List Tok))) (k : List (SN τ)) :
+    createDefault (.list n ks mn mx u k) = none := by simp [createDefault]
+theorem createDefault_leafList (n : Tok) (t : τ) (mn : Nat) (mx : Option Nat) :
+    createDefault (.leafList n t mn mx : SN τ) = none := by simp [createDefault]
+
+theorem cds_nil (ctx : List (SN τ)) : createDefaults ctx [] = [] := by rw [createDefaults]
+theorem cds_choice (ctx : List (SN τ)) (a : Tok) (b : Bool) (d : Option Tok) (cases r : List (SN τ)) :
+    createDefaults ctx (.choice a b d cases :: r) = createDefaultsCases ctx cases ++ createDefaults ctx r := by rw [createDefaults]
+theorem cds_case (ctx : List (SN τ)) (a : Tok) (k r : List (SN τ)) :
+    createDefaults ctx (.case a k :: r) = createDefaults ctx r := by rw [createDefaults]
+theorem cds_leaf (ctx : List (SN τ)) (n : Tok) (t : τ) (d : Option Bytes) (m : Bool) (r : List (SN τ)) :
+    createDefaults ctx (.leaf n t d m :: r) = (createDefault (.leaf n t d m)).toList ++ createDefaults ctx r := by rw [createDefaults]
+theorem cds_container (ctx : List (SN τ)) (n : Tok) (p : Bool) (k r : List (SN τ)) :
+    createDefaults ctx (.container n p k :: r) = (createDefault (.container n p k)).toList ++ createDefaults ctx r := by rw [createDefaults]
+theorem cds_list (ctx : List (SN τ)) (n : Tok) (ks : List Tok) (mn : Nat) (mx : Option Nat) (u : List (List (List Tok))) (k r : List (SN τ)) :
+    createDefaults ctx (.list n ks mn mx u k :: r) = createDefaults ctx r := by rw [createDefaults]
+theorem cds_leafList (ctx : List (SN τ)) (n : Tok) (t : τ) (mn : Nat) (mx : Option Nat) (r : List (SN τ)) :
+    createDefaults ctx (.leafList n t mn mx :: r) = createDefaults ctx r := by rw [createDefaults]
+
+theorem cdc_nil (ctx : List (SN τ)) : createDefaultsCases ctx [] = [] := by rw [createDefaultsCases]
+theorem cdc_case (ctx : List (SN τ)) (a : Tok) (kids r : List (SN τ)) :
+    createDefaultsCases ctx (.case a kids :: r) = createDefaultsIn ctx kids ++ createDefaultsCases ctx r := by rw [createDefaultsCases]
+
+theorem cdi_nil (ctx : List (SN τ)) : createDefaultsIn ctx [] = [] := by rw [createDefaultsIn]
+theorem cdi_choice (ctx : List (SN τ)) (a : Tok) (b : Bool) (d : Option Tok) (cases r : List (SN τ)) :
+    createDefaultsIn ctx (.choice a b d cases :: r) = createDefaultsCases ctx cases ++ createDefaultsIn ctx r := by rw [createDefaultsIn]
+theorem cdi_leaf (ctx : List (SN τ)) (n : Tok) (t : τ) (d : Option Bytes) (m : Bool) (r : List (SN τ)) :
+    createDefaultsIn ctx (.leaf n t d m :: r) =
+      (if isActiveDefault [] n false false (ctx.filter (·.isChoice)) then (createDefault (.leaf n t d m)).toList else []) ++
+        createDefaultsIn ctx r := by rw [createDefaultsIn]
+theorem cdi_container (ctx : List (SN τ)) (n : Tok) (p : Bool) (k r : List (SN τ)) :
+    createDefaultsIn ctx (.container n p k :: r) =
+      (if isActiveDefault [] n false false (ctx.filter (·.isChoice)) then (createDefault (.container n p k)).toList else []) ++
+        createDefaultsIn ctx r := by rw [createDefaultsIn]
+theorem cdi_list (ctx : List (SN τ)) (n : Tok) (ks : List Tok) (mn : Nat) (mx : Option Nat) (u : List (List (List Tok))) (k r : List (SN τ)) :
+    createDefaultsIn ctx (.list n ks mn mx u k :: r) = createDefaultsIn ctx r := by rw [createDefaultsIn]
+theorem cdi_leafList (ctx : List (SN τ)) (n : Tok) (t : τ) (mn : Nat) (mx : Option Nat) (r : List (SN τ)) :
+    createDefaultsIn ctx (.leafList n t mn mx :: r) = createDefaultsIn ctx r := by rw [createDefaultsIn]
+
+theorem anyDefault_nil : anyDefault ([] : List (SN τ)) = false := by rw [anyDefault]
+theorem anyDefault_choice (a : Tok) (b : Bool) (d : Option Tok) (cases r : List (SN τ)) :
+    anyDefault (.choice a b d cases :: r) = (anyDefaultCases cases || anyDefault r) := by rw [anyDefault]
+theorem anyDefault_leaf (n : Tok) (t : τ) (d : Option Bytes) (m : Bool) (r : List (SN τ)) :
+    anyDefault (.leaf n t d m :: r) = (hasDefault (.leaf n t d m) || anyDefault r) := by rw [anyDefault]; simp
+theorem anyDefault_container (n : Tok) (p : Bool) (k r : List (SN τ)) :
+    anyDefault (.container n p k :: r) = (hasDefault (.container n p k) || anyDefault r) := by rw [anyDefault]; simp
+theorem anyDefault_list (n : Tok) (ks : List Tok) (mn : Nat) (mx : Option Nat) (u : List (List (List Tok))) (k r : List (SN τ)) :
+    anyDefault (.list n ks mn mx u k :: r) = anyDefault r := by rw [anyDefault] <;> simp [hasDefault]
+theorem anyDefault_leafList (n : Tok) (t : τ) (mn : Nat) (mx : Option Nat) (r : List (SN τ)) :
+    anyDefault (.leafList n t mn mx :: r) = anyDefault r := by rw [anyDefault] <;> simp [hasDefault]
+theorem anyDefaultCases_case (a : Tok) (kids r : List (SN τ)) :
+    anyDefaultCases (.case a kids :: r) = (anyDefault kids || anyDefaultCases r) := by rw [anyDefaultCases]
+theorem hasDefault_leaf (n : Tok) (t : τ) (d : Option Bytes) (m : Bool) :
+    hasDefault (.leaf n t d m : SN τ) = (!m && d.isSome) := by rw [hasDefault]
+theorem hasDefault_container (n : Tok) (p : Bool) (k : List (SN τ)) :
+    hasDefault (.container n p k) = (!p && anyDefault k) := by rw [hasDefault]
+
+mutual
+theorem cds_noDefault (ctx : List (SN τ)) : ∀ (nodes : List (SN τ)), wfL nodes → anyDefault nodes = false →
+    createDefaults ctx nodes = []
+  | [], _, _ => cds_nil ctx
+  | .leaf n t d m :: r, hw, h => by
+    rw [wfL] at hw
+    rw [anyDefault_leaf, Bool.or_eq_false_iff, hasDefault_leaf] at h
+    rw [cds_leaf, cds_noDefault ctx r hw.2 h.2, createDefault_leaf]
+    cases d <;> cases m <;> simp_all
+  | .container n p k :: r, hw, h => by
+    rw [wfL, wfN] at hw
+    rw [anyDefault_container, Bool.or_eq_false_iff, hasDefault_container] at h
+    rw [cds_container, cds_noDefault ctx r hw.2 h.2, createDefault_container]
+    cases p with
+    | true => simp
+    | false =>
+      simp only [Bool.not_false, Bool.true_and] at h
+      simp [cds_noDefault k k hw.1.1 h.1]
+  | .list n ks mn mx u k :: r, hw, h => by
+    rw [wfL] at hw; rw [anyDefault_list] at h
+    rw [cds_list]; exact cds_noDefault ctx r hw.2 h
+  | .leafList n t mn mx :: r, hw, h => by
+    rw [wfL] at hw; rw [anyDefault_leafList] at h
+    rw [cds_leafList]; exact cds_noDefault ctx r hw.2 h
+  | .case a k :: r, hw, _ => by rw [wfL, wfN] at hw; exact hw.1.elim
+  | .choice a b d cases :: r, hw, h => by
+    rw [wfL, wfN] at hw
+    rw [anyDefault_choice, Bool.or_eq_false_iff] at h
+    rw [cds_choice, cdc_noDefault ctx cases hw.1.1 h.1, cds_noDefault ctx r hw.2 h.2]; rfl
+theorem cdc_noDefault (ctx : List (SN τ)) : ∀ (cases : List (SN τ)), wfC cases → anyDefaultCases cases = false →
+    createDefaultsCases ctx cases = []
+  | [], _, _ => cdc_nil ctx
+  | .case a kids :: r, hw, h => by
+    rw [wfC] at hw
+    rw [anyDefaultCases_case, Bool.or_eq_false_iff] at h
+    rw [cdc_case, cdi_noDefault ctx kids hw.1 h.1, cdc_noDefault ctx r hw.2 h.2]; rfl
+  | .container .. :: _, hw, _ => by rw [wfC] at hw; exact hw.elim
+  | .list .. :: _, hw, _ => by rw [wfC] at hw; exact hw.elim
+  | .leaf .. :: _, hw, _ => by rw [wfC] at hw; exact hw.elim
+  | .leafList .. :: _, hw, _ => by rw [wfC] at hw; exact hw.elim
+  | .choice .. :: _, hw, _ => by rw [wfC] at hw; exact hw.elim
+theorem cdi_noDefault (ctx : List (SN τ)) : ∀ (nodes : List (SN τ)), wfL nodes → anyDefault nodes = false →
+    createDefaultsIn ctx nodes = []
+  | [], _, _ => cdi_nil ctx
+  | .leaf n t d m :: r, hw, h => by
+    rw [wfL] at hw
+    rw [anyDefault_leaf, Bool.or_eq_false_iff, hasDefault_leaf] at h
+    rw [cdi_leaf, cdi_noDefault ctx r hw.2 h.2, createDefault_leaf]
+    cases d <;> cases m <;> simp_all
+  | .container n p k :: r, hw, h => by
+    rw [wfL, wfN] at hw
+    rw [anyDefault_container, Bool.or_eq_false_iff, hasDefault_container] at h
+    rw [cdi_container, cdi_noDefault ctx r hw.2 h.2, createDefault_container]
+    cases p with
+    | true => simp
+    | false =>
+      simp only [Bool.not_false, Bool.true_and] at h
+      simp [cds_noDefault k k hw.1.1 h.1]
+  | .list n ks mn mx u k :: r, hw, h => by
+    rw [wfL] at hw; rw [anyDefault_list] at h
+    rw [cdi_list]; exact cdi_noDefault ctx r hw.2 h
+  | .leafList n t mn mx :: r, hw, h => by
+    rw [wfL] at hw; rw [anyDefault_leafList] at h
+    rw [cdi_leafList]; exact cdi_noDefault ctx r hw.2 h
+  | .case a k :: r, hw, _ => by rw [wfL, wfN] at hw; exact hw.1.elim
+  | .choice a b d cases :: r, hw, h => by
+    rw [wfL, wfN] at hw
+    rw [anyDefault_choice, Bool.or_eq_false_iff] at h
+    rw [cdi_choice, cdc_noDefault ctx cases hw.1.1 h.1, cdi_noDefault ctx r hw.2 h.2]; rfl
+end
+
+/-- `HasDefault()` false: nothing is created -/
+theorem createDefault_none_of_noDefault : ∀ (sn : SN τ), wfN sn → hasDefault sn = false → createDefault sn = none
+  | .leaf n t d m, _, h => by
+    rw [hasDefault_leaf] at h; rw [createDefault_leaf]; cases d <;> cases m <;> simp_all
+  | .container n p k, hw, h => by
+    rw [wfN] at hw
+    rw [hasDefault_container] at h; rw [createDefault_container]
+    cases p with
+    | true => simp
+    | false =>
+      simp only [Bool.not_false, Bool.true_and] at h
+      simp [cds_noDefault k k hw.1 h]
+  | .list .., _, _ => createDefault_list ..
+  | .leafList .., _, _ => createDefault_leafList ..
+  | .choice .., _, _ => by simp [createDefault]
+  | .case .., _, _ => by simp [createDefault]
+
+/-! ### the specification: nothing from a schema without defaults; only the names of the level matter -/
+
+mutual
+theorem defaultsS_noDefault (cfg : List Tok) : ∀ (nodes : List (SN τ)), wfL nodes → anyDefault nodes = false →
+    defaultsS cfg nodes = []
+  | [], _, _ => by simp [defaultsS]
+  | .leaf n t d m :: r, hw, h => by
+    rw [wfL] at hw
+    rw [anyDefault_leaf, Bool.or_eq_false_iff, hasDefault_leaf] at h
+    rw [defaultsS_leaf, defaultsS_noDefault cfg r hw.2 h.2]
+    unfold emitLeaf
+    cases d <;> cases m <;> simp_all
+  | .container n p k :: r, hw, h => by
+    rw [wfL, wfN] at hw
+    rw [anyDefault_container, Bool.or_eq_false_iff, hasDefault_container] at h
+    rw [defaultsS_container, defaultsS_noDefault cfg r hw.2 h.2]
+    unfold emitContainer
+    cases p with
+    | true => simp
+    | false =>
+      simp only [Bool.not_false, Bool.true_and] at h
+      simp [defaultsS_noDefault [] k hw.1.1 h.1]
+  | .list n ks mn mx u k :: r, hw, h => by
+    rw [wfL] at hw; rw [anyDefault_list] at h
+    rw [defaultsS_list]; exact defaultsS_noDefault cfg r hw.2 h
+  | .leafList n t mn mx :: r, hw, h => by
+    rw [wfL] at hw; rw [anyDefault_leafList] at h
+    rw [defaultsS_leafList]; exact defaultsS_noDefault cfg r hw.2 h
+  | .case a k :: r, hw, _ => by rw [wfL, wfN] at hw; exact hw.1.elim
+  | .choice a b d cases :: r, hw, h => by
+    rw [wfL, wfN] at hw
+    rw [anyDefault_choice, Bool.or_eq_false_iff] at h
+    rw [defaultsS_choice, defaultsS_noDefault cfg r hw.2 h.2]
+    unfold emitChoice
+    rw [defaultsActive_noDefault cfg cases hw.1.1 h.1]
+    cases d with
+    | none => simp
+    | some dc => simp [defaultsOfCase_noDefault dc cases hw.1.1 h.1]
+theorem defaultsActive_noDefault (cfg : List Tok) : ∀ (cases : List (SN τ)), wfC cases → anyDefaultCases cases = false →
+    defaultsActive cfg cases = []
+  | [], _, _ => by simp [defaultsActive]
+  | .case a kids :: r, hw, h => by
+    rw [wfC] at hw
+    rw [anyDefaultCases_case, Bool.or_eq_false_iff] at h
+    rw [defaultsActive_case, defaultsS_noDefault cfg kids hw.1 h.1, defaultsActive_noDefault cfg r hw.2 h.2]
+    simp
+  | .container .. :: _, hw, _ => by rw [wfC] at hw; exact hw.elim
+  | .list .. :: _, hw, _ => by rw [wfC] at hw; exact hw.elim
+  | .leaf .. :: _, hw, _ => by rw [wfC] at hw; exact hw.elim
+  | .leafList .. :: _, hw, _ => by rw [wfC] at hw; exact hw.elim
+  | .choice .. :: _, hw, _ => by rw [wfC] at hw; exact hw.elim
+theorem defaultsOfCase_noDefault (dc : Tok) : ∀ (cases : List (SN τ)), wfC cases → anyDefaultCases cases = false →
+    defaultsOfCase dc cases = []
+  | [], _, _ => by simp [defaultsOfCase]
+  | .case a kids :: r, hw, h => by
+    rw [wfC] at hw
+    rw [anyDefaultCases_case, Bool.or_eq_false_iff] at h
+    rw [defaultsOfCase_case, defaultsS_noDefault [] kids hw.1 h.1, defaultsOfCase_noDefault dc r hw.2 h.2]
+    simp
+  | .container .. :: _, hw, _ => by rw [wfC] at hw; exact hw.elim
+  | .list .. :: _, hw, _ => by rw [wfC] at hw; exact hw.elim
+  | .leaf .. :: _, hw, _ => by rw [wfC] at hw; exact hw.elim
+  | .leafList .. :: _, hw, _ => by rw [wfC] at hw; exact hw.elim
+  | .choice .. :: _, hw, _ => by rw [wfC] at hw; exact hw.elim
+end
+
+/-- two sets of configured names that agree on the names in `S` -/
+def Agree (S c1 c2 : List Tok) : Prop := ∀ n ∈ S, (n ∈ c1 ↔ n ∈ c2)
+
+theorem Agree_left {S1 S2 c1 c2 : List Tok} (h : Agree (S1 ++ S2) c1 c2) : Agree S1 c1 c2 :=
+  fun n hn => h n (List.mem_append_left _ hn)
+theorem Agree_right {S1 S2 c1 c2 : List Tok} (h : Agree (S1 ++ S2) c1 c2) : Agree S2 c1 c2 :=
+  fun n hn => h n (List.mem_append_right _ hn)
+
+theorem contains_congr {c1 c2 : List Tok} {n : Tok} (h : n ∈ c1 ↔ n ∈ c2) : c1.contains n = c2.contains n := by
+  by_cases h1 : n ∈ c1
+  · have h2 := h.mp h1; simp [h1, h2]
+  · have h2 : n ∉ c2 := fun hh => h1 (h.mpr hh); simp [h1, h2]
+
+theorem active_congr (kids : List (SN τ)) {c1 c2 : List Tok} (h : Agree (names kids) c1 c2) : active kids c1 = active kids c2 := by
+  cases h1 : active kids c1 <;> cases h2 : active kids c2 <;> try rfl
+  · obtain ⟨n, hn, hc⟩ := (active_iff kids c2).mp h2
+    have := (active_iff kids c1).mpr ⟨n, hn, (h n hn).mpr hc⟩
+    simp [this] at h1
+  · obtain ⟨n, hn, hc⟩ := (active_iff kids c1).mp h1
+    have := (active_iff kids c2).mpr ⟨n, hn, (h n hn).mp hc⟩
+    simp [this] at h2
+
+theorem activeCases_congr (cases : List (SN τ)) {c1 c2 : List Tok} (h : Agree (cnames cases) c1 c2) :
+    activeCases cases c1 = activeCases cases c2 := by
+  cases h1 : activeCases cases c1 <;> cases h2 : activeCases cases c2 <;> try rfl
+  · obtain ⟨n, hn, hc⟩ := (activeCases_iff cases c2).mp h2
+    have := (activeCases_iff cases c1).mpr ⟨n, hn, (h n hn).mpr hc⟩
+    simp [this] at h1
+  · obtain ⟨n, hn, hc⟩ := (activeCases_iff cases c1).mp h1
+    have := (activeCases_iff cases c2).mpr ⟨n, hn, (h n hn).mp hc⟩
+    simp [this] at h2
+
+mutual
+theorem defaultsS_congr (c1 c2 : List Tok) : ∀ (nodes : List (SN τ)), wfL nodes → Agree (names nodes) c1 c2 →
+    defaultsS c1 nodes = defaultsS c2 nodes
+  | [], _, _ => by simp [defaultsS]
+  | .leaf n t d m :: r, hw, h => by
+    rw [wfL] at hw; rw [names_leaf] at h
+    have h' : Agree ([n] ++ names r) c1 c2 := h
+    rw [defaultsS_leaf, defaultsS_leaf, defaultsS_congr c1 c2 r hw.2 (Agree_right h')]
+    unfold emitLeaf
+    rw [contains_congr (h n (by simp))]
+  | .container n p k :: r, hw, h => by
+    rw [wfL] at hw; rw [names_container] at h
+    have h' : Agree ([n] ++ names r) c1 c2 := h
+    rw [defaultsS_container, defaultsS_container, defaultsS_congr c1 c2 r hw.2 (Agree_right h')]
+    unfold emitContainer
+    rw [contains_congr (h n (by simp))]
+  | .list n ks mn mx u k :: r, hw, h => by
+    rw [wfL] at hw; rw [names_list] at h
+    have h' : Agree ([n] ++ names r) c1 c2 := h
+    rw [defaultsS_list, defaultsS_list]; exact defaultsS_congr c1 c2 r hw.2 (Agree_right h')
+  | .leafList n t mn mx :: r, hw, h => by
+    rw [wfL] at hw; rw [names_leafList] at h
+    have h' : Agree ([n] ++ names r) c1 c2 := h
+    rw [defaultsS_leafList, defaultsS_leafList]; exact defaultsS_congr c1 c2 r hw.2 (Agree_right h')
+  | .case a k :: r, hw, _ => by rw [wfL, wfN] at hw; exact hw.1.elim
+  | .choice a b d cases :: r, hw, h => by
+    rw [wfL, wfN] at hw; rw [names_choice] at h
+    rw [defaultsS_choice, defaultsS_choice, defaultsS_congr c1 c2 r hw.2 (Agree_right h)]
+    unfold emitChoice
+    rw [activeCases_congr cases (Agree_left h), defaultsActive_congr c1 c2 cases hw.1.1 (Agree_left h)]
+theorem defaultsActive_congr (c1 c2 : List Tok) : ∀ (cases : List (SN τ)), wfC cases → Agree (cnames cases) c1 c2 →
+    defaultsActive c1 cases = defaultsActive c2 cases
+  | [], _, _ => by simp [defaultsActive]
+  | .case a kids :: r, hw, h => by
+    rw [wfC] at hw; rw [cnames_case] at h
+    rw [defaultsActive_case, defaultsActive_case, defaultsActive_congr c1 c2 r hw.2 (Agree_right h),
+      active_congr kids (Agree_left h), defaultsS_congr c1 c2 kids hw.1 (Agree_left h)]
+  | .container .. :: _, hw, _ => by rw [wfC] at hw; exact hw.elim
+  | .list .. :: _, hw, _ => by rw [wfC] at hw; exact hw.elim
+  | .leaf .. :: _, hw, _ => by rw [wfC] at hw; exact hw.elim
+  | .leafList .. :: _, hw, _ => by rw [wfC] at hw; exact hw.elim
+  | .choice .. :: _, hw, _ => by rw [wfC] at hw; exact hw.elim
+end
+
+/-! ### the model's decision per node, against the specification level by level -/
+
+/-- what `yangDataChildren` does with one node of the child map, given the activity test -/
+def gbody (seen : List Tok) (act : Tok → Bool) (def_ : SN τ) : List DN :=
+  if !hasDefault def_ || seen.contains def_.name then []
+  else if !act def_.name then [] else (createDefault def_).toList
+
+theorem hasCfg_active (seen : List Tok) (kids : List (SN τ)) : hasCfg seen (dataKids kids) = active kids seen := rfl
+theorem hasCfg_activeCases (seen : List Tok) (cases : List (SN τ)) : hasCfg seen (caseKids cases) = activeCases cases seen := rfl
+
+theorem flatMap_gbody_congr (seen : List Tok) (act1 act2 : Tok → Bool) (l : List (SN τ))
+    (h : ∀ x ∈ l, act1 x.name = act2 x.name) : l.flatMap (gbody seen act1) = l.flatMap (gbody seen act2) := by
+  induction l with
+  | nil => rfl
+  | cons x r ih =>
+    simp only [List.flatMap_cons]
+    rw [ih (fun y hy => h y (List.mem_cons_of_mem _ hy))]
+    congr 1
+    unfold gbody
+    rw [h x (by simp)]
+
+theorem flatMap_gbody_false (seen : List Tok) (act : Tok → Bool) (l : List (SN τ))
+    (h : ∀ x ∈ l, act x.name = false) : l.flatMap (gbody seen act) = [] := by
+  induction l with
+  | nil => rfl
+  | cons x r ih =>
+    simp only [List.flatMap_cons]
+    rw [ih (fun y hy => h y (List.mem_cons_of_mem _ hy))]
+    unfold gbody
+    rw [h x (by simp)]
+    simp
+
+theorem mem_names_of_mem_dataKids {nodes : List (SN τ)} {x : SN τ} (h : x ∈ dataKids nodes) : x.name ∈ names nodes :=
+  List.mem_map_of_mem h
+theorem mem_cnames_of_mem_caseKids {cases : List (SN τ)} {x : SN τ} (h : x ∈ caseKids cases) : x.name ∈ cnames cases :=
+  List.mem_map_of_mem h
+
+/-- in a choice whose default case is named differently from all of these cases, nothing of them is active -/
+theorem iadc_some_false (seen : List Tok) (name dc : Tok) : ∀ (cases : List (SN τ)), wfC cases →
+    (∀ c ∈ cases, c.name ≠ dc) → isActiveDefaultCase seen name (some dc) cases = false
+  | [], _, _ => iadc_nil seen name (some dc)
+  | .case a kids :: r, hw, h => by
+    rw [wfC] at hw
+    rw [iadc_case]
+    have ha : dc ≠ a := fun e => h (.case a kids) (by simp) (by simp [SN.name, e])
+    split
+    · simp [ha]
+    · exact iadc_some_false seen name dc r hw.2 (fun c hc => h c (List.mem_cons_of_mem _ hc))
+  | .container .. :: _, hw, _ => by rw [wfC] at hw; exact hw.elim
+  | .list .. :: _, hw, _ => by rw [wfC] at hw; exact hw.elim
+  | .leaf .. :: _, hw, _ => by rw [wfC] at hw; exact hw.elim
+  | .leafList .. :: _, hw, _ => by rw [wfC] at hw; exact hw.elim
+  | .choice .. :: _, hw, _ => by rw [wfC] at hw; exact hw.elim
+
+/-- the activity test `yangDataChildren` applies at a parent with schema children `top` -/
+def actTop (top : List (SN τ)) (seen : List Tok) (n : Tok) : Bool :=
+  !inChoice top n || isActiveDefault seen n false false (top.filter (·.isChoice))
+
+def body (top : List (SN τ)) (seen : List Tok) (def_ : SN τ) : List DN := gbody seen (actTop top seen) def_
+
+theorem addedDefaults_eq (top : List (SN τ)) (seen : List Tok) :
+    addedDefaults top seen = (dataKids top).flatMap (body top seen) := by
+  unfold addedDefaults
+  congr 1
+  funext def_
+  unfold body gbody actTop
+  cases (!hasDefault def_ || seen.contains def_.name) <;> simp only [Bool.false_eq_true, ↓reduceIte]
+  cases inChoice top def_.name <;> cases isActiveDefault seen def_.name false false (top.filter (·.isChoice)) <;> simp
+
+/-! ### `createDefaults` (what a default container is filled with) is the same decision with nothing configured -/
+
+theorem gbody_direct (ctx : List (SN τ)) (x : SN τ) (hw : wfN x) (h : inChoice ctx x.name = false) :
+    body ctx [] x = (createDefault x).toList := by
+  unfold body gbody actTop
+  rw [h]
+  cases hd : hasDefault x
+  · simp [createDefault_none_of_noDefault x hw hd]
+  · simp
+
+theorem gbody_member (ctx : List (SN τ)) (x : SN τ) (hw : wfN x) (h : inChoice ctx x.name = true) :
+    body ctx [] x =
+      if isActiveDefault [] x.name false false (ctx.filter (·.isChoice)) then (createDefault x).toList else [] := by
+  unfold body gbody actTop
+  rw [h]
+  cases hd : hasDefault x
+  · simp [createDefault_none_of_noDefault x hw hd]
+  · cases isActiveDefault [] x.name false false (ctx.filter (·.isChoice)) <;> simp
+
+mutual
+theorem cds_flat (ctx : List (SN τ)) : ∀ (nodes : List (SN τ)), wfL nodes → (names nodes).Nodup →
+    (∀ n ∈ names nodes, inChoice ctx n = inChoice nodes n) →
+    createDefaults ctx nodes = (dataKids nodes).flatMap (body ctx [])
+  | [], _, _, _ => by simp [cds_nil, dataKids]
+  | .leaf a t d m :: r, hw, hnd, h => by
+    rw [wfL] at hw; rw [names_leaf] at hnd h
+    have hnd' := List.nodup_cons.mp hnd
+    have hdk : dataKids (.leaf a t d m :: r) = .leaf a t d m :: dataKids r := by rw [dataKids]; simp
+    rw [cds_leaf, hdk, List.flatMap_cons]
+    have ha : inChoice ctx a = false := by
+      rw [h a (by simp), inChoice_cons]; simp [inChoice_false_of_notin r a hnd'.1]
+    rw [gbody_direct ctx _ hw.1 ha]
+    congr 1
+    apply cds_flat ctx r hw.2 hnd'.2
+    intro n hn
+    rw [h n (List.mem_cons_of_mem _ hn), inChoice_cons]; simp
+  | .container a p k :: r, hw, hnd, h => by
+    rw [wfL] at hw; rw [names_container] at hnd h
+    have hnd' := List.nodup_cons.mp hnd
+    have hdk : dataKids (.container a p k :: r) = .container a p k :: dataKids r := by rw [dataKids]; simp
+    rw [cds_container, hdk, List.flatMap_cons]
+    have ha : inChoice ctx a = false := by
+      rw [h a (by simp), inChoice_cons]; simp [inChoice_false_of_notin r a hnd'.1]
+    rw [gbody_direct ctx _ hw.1 ha]
+    congr 1
+    apply cds_flat ctx r hw.2 hnd'.2
+    intro n hn
+    rw [h n (List.mem_cons_of_mem _ hn), inChoice_cons]; simp
+  | .list a ks mn mx u k :: r, hw, hnd, h => by
+    rw [wfL] at hw; rw [names_list] at hnd h
+    have hnd' := List.nodup_cons.mp hnd
+    have hdk : dataKids (.list a ks mn mx u k :: r) = .list a ks mn mx u k :: dataKids r := by rw [dataKids]; simp
+    rw [cds_list, hdk, List.flatMap_cons]
+    have ha : inChoice ctx a = false := by
+      rw [h a (by simp), inChoice_cons]; simp [inChoice_false_of_notin r a hnd'.1]
+    rw [gbody_direct ctx _ hw.1 ha, createDefault_list]
+    simp only [Option.toList_none, List.nil_append]
+    apply cds_flat ctx r hw.2 hnd'.2
+    intro n hn
+    rw [h n (List.mem_cons_of_mem _ hn), inChoice_cons]; simp
+  | .leafList a t mn mx :: r, hw, hnd, h => by
+    rw [wfL] at hw; rw [names_leafList] at hnd h
+    have hnd' := List.nodup_cons.mp hnd
+    have hdk : dataKids (.leafList a t mn mx :: r) = .leafList a t mn mx :: dataKids r := by rw [dataKids]; simp
+    rw [cds_leafList, hdk, List.flatMap_cons]
+    have ha : inChoice ctx a = false := by
+      rw [h a (by simp), inChoice_cons]; simp [inChoice_false_of_notin r a hnd'.1]
+    rw [gbody_direct ctx _ hw.1 ha, createDefault_leafList]
+    simp only [Option.toList_none, List.nil_append]
+    apply cds_flat ctx r hw.2 hnd'.2
+    intro n hn
+    rw [h n (List.mem_cons_of_mem _ hn), inChoice_cons]; simp
+  | .case a k :: r, hw, _, _ => by rw [wfL, wfN] at hw; exact hw.1.elim
+  | .choice a b d cases :: r, hw, hnd, h => by
+    rw [wfL, wfN] at hw; rw [names_choice] at hnd h
+    rw [cds_choice, dataKids_choice, List.flatMap_append]
+    congr 1
+    · apply cdc_flat ctx cases hw.1.1
+      intro n hn
+      rw [h n (List.mem_append_left _ hn), inChoice_cons]
+      simp [lookup_isSome_of_mem (caseKids cases) n hn]
+    · apply cds_flat ctx r hw.2 (nodup_right hnd)
+      intro n hn
+      rw [h n (List.mem_append_right _ hn), inChoice_cons]
+      have : n ∉ cnames cases := fun hc => nodup_disj hnd hc hn
+      simp [lookup_none_of_notin (caseKids cases) n this]
+theorem cdc_flat (ctx : List (SN τ)) : ∀ (cases : List (SN τ)), wfC cases →
+    (∀ n ∈ cnames cases, inChoice ctx n = true) →
+    createDefaultsCases ctx cases = (caseKids cases).flatMap (body ctx [])
+  | [], _, _ => by simp [cdc_nil, caseKids]
+  | .case a kids :: r, hw, h => by
+    rw [wfC] at hw; rw [cnames_case] at h
+    rw [cdc_case, caseKids_case, List.flatMap_append,
+      cdi_flat ctx kids hw.1 (fun n hn => h n (List.mem_append_left _ hn)),
+      cdc_flat ctx r hw.2 (fun n hn => h n (List.mem_append_right _ hn))]
+  | .container .. :: _, hw, _ => by rw [wfC] at hw; exact hw.elim
+  | .list .. :: _, hw, _ => by rw [wfC] at hw; exact hw.elim
+  | .leaf .. :: _, hw, _ => by rw [wfC] at hw; exact hw.elim
+  | .leafList .. :: _, hw, _ => by rw [wfC] at hw; exact hw.elim
+  | .choice .. :: _, hw, _ => by rw [wfC] at hw; exact hw.elim
+theorem cdi_flat (ctx : List (SN τ)) : ∀ (nodes : List (SN τ)), wfL nodes →
+    (∀ n ∈ names nodes, inChoice ctx n = true) →
+    createDefaultsIn ctx nodes = (dataKids nodes).flatMap (body ctx [])
+  | [], _, _ => by simp [cdi_nil, dataKids]
+  | .leaf a t d m :: r, hw, h => by
+    rw [wfL] at hw; rw [names_leaf] at h
+    have hdk : dataKids (.leaf a t d m :: r) = .leaf a t d m :: dataKids r := by rw [dataKids]; simp
+    rw [cdi_leaf, hdk, List.flatMap_cons, gbody_member ctx _ hw.1 (h a (by simp)),
+      cdi_flat ctx r hw.2 (fun n hn => h n (List.mem_cons_of_mem _ hn))]
+    rfl
+  | .container a p k :: r, hw, h => by
+    rw [wfL] at hw; rw [names_container] at h
+    have hdk : dataKids (.container a p k :: r) = .container a p k :: dataKids r := by rw [dataKids]; simp
+    rw [cdi_container, hdk, List.flatMap_cons, gbody_member ctx _ hw.1 (h a (by simp)),
+      cdi_flat ctx r hw.2 (fun n hn => h n (List.mem_cons_of_mem _ hn))]
+    rfl
+  | .list a ks mn mx u k :: r, hw, h => by
+    rw [wfL] at hw; rw [names_list] at h
+    have hdk : dataKids (.list a ks mn mx u k :: r) = .list a ks mn mx u k :: dataKids r := by rw [dataKids]; simp
+    rw [cdi_list, hdk, List.flatMap_cons, gbody_member ctx _ hw.1 (h a (by simp)), createDefault_list,
+      cdi_flat ctx r hw.2 (fun n hn => h n (List.mem_cons_of_mem _ hn))]
+    simp
+  | .leafList a t mn mx :: r, hw, h => by
+    rw [wfL] at hw; rw [names_leafList] at h
+    have hdk : dataKids (.leafList a t mn mx :: r) = .leafList a t mn mx :: dataKids r := by rw [dataKids]; simp
+    rw [cdi_leafList, hdk, List.flatMap_cons, gbody_member ctx _ hw.1 (h a (by simp)), createDefault_leafList,
+      cdi_flat ctx r hw.2 (fun n hn => h n (List.mem_cons_of_mem _ hn))]
+    simp
+  | .case a k :: r, hw, _ => by rw [wfL, wfN] at hw; exact hw.1.elim
+  | .choice a b d cases :: r, hw, h => by
+    rw [wfL, wfN] at hw; rw [names_choice] at h
+    rw [cdi_choice, dataKids_choice, List.flatMap_append,
+      cdc_flat ctx cases hw.1.1 (fun n hn => h n (List.mem_append_left _ hn)),
+      cdi_flat ctx r hw.2 (fun n hn => h n (List.mem_append_right _ hn))]
+end
+
+/-- a default container is filled with what `yangDataChildren` would add to an empty one -/
+theorem createDefaults_eq_added (kids : List (SN τ)) (hw : wfL kids) (hnd : (names kids).Nodup) :
+    createDefaults kids kids = addedDefaults kids [] := by
+  rw [addedDefaults_eq]
+  exact cds_flat kids kids hw hnd (fun _ _ => rfl)
+
+/-! ### the activity test at the parent = the activity test walking the parent's own children -/
+
+theorem names_filter_sub : ∀ (l : List (SN τ)) (n : Tok), n ∈ names (l.filter (·.isChoice)) → n ∈ names l
+  | [], n, h => by simp at h
+  | .choice a b d cases :: r, n, h => by
+    have : (SN.choice a b d cases :: r).filter (·.isChoice) = .choice a b d cases :: r.filter (·.isChoice) := by
+      simp [List.filter, SN.isChoice]
+    rw [this, names_choice, List.mem_append] at h
+    rw [names_choice, List.mem_append]
+    exact h.imp id (names_filter_sub r n)
+  | .leaf a t d m :: r, n, h => by
+    have : (SN.leaf a t d m :: r).filter (·.isChoice) = r.filter (·.isChoice) := by simp [List.filter, SN.isChoice]
+    rw [this] at h; rw [names_leaf]; exact List.mem_cons_of_mem _ (names_filter_sub r n h)
+  | .leafList a t mn mx :: r, n, h => by
+    have : (SN.leafList a t mn mx :: r).filter (·.isChoice) = r.filter (·.isChoice) := by simp [List.filter, SN.isChoice]
+    rw [this] at h; rw [names_leafList]; exact List.mem_cons_of_mem _ (names_filter_sub r n h)
+  | .container a p k :: r, n, h => by
+    have : (SN.container a p k :: r).filter (·.isChoice) = r.filter (·.isChoice) := by simp [List.filter, SN.isChoice]
+    rw [this] at h; rw [names_container]; exact List.mem_cons_of_mem _ (names_filter_sub r n h)
+  | .list a ks mn mx u k :: r, n, h => by
+    have : (SN.list a ks mn mx u k :: r).filter (·.isChoice) = r.filter (·.isChoice) := by simp [List.filter, SN.isChoice]
+    rw [this] at h; rw [names_list]; exact List.mem_cons_of_mem _ (names_filter_sub r n h)
+  | .case a k :: r, n, h => by
+    have : (SN.case a k :: r).filter (·.isChoice) = r.filter (·.isChoice) := by simp [List.filter, SN.isChoice]
+    rw [this] at h
+    have := names_filter_sub r n h
+    simp only [names, dataKids, List.map_cons, List.mem_cons]; right; exact this
+
+theorem actTop_eq (seen : List Tok) : ∀ (l : List (SN τ)), wfL l → (names l).Nodup → ∀ n ∈ names l,
+    actTop l seen n = isActiveDefault seen n true false l
+  | [], _, _, n, h => by simp at h
+  | .leaf a t d m :: r, hw, hnd, n, h => by
+    rw [wfL] at hw; rw [names_leaf] at hnd h
+    have hnd' := List.nodup_cons.mp hnd
+    have hf : (SN.leaf a t d m :: r).filter (·.isChoice) = r.filter (·.isChoice) := by simp [List.filter, SN.isChoice]
+    unfold actTop
+    rw [hf, inChoice_cons, iad_leaf]
+    simp only [Bool.false_or]
+    by_cases e : a = n
+    · subst e
+      simp [inChoice_false_of_notin r a hnd'.1]
+    · rw [if_neg e]
+      exact actTop_eq seen r hw.2 hnd'.2 n ((List.mem_cons.mp h).resolve_left (fun e' => e e'.symm))
+  | .leafList a t mn mx :: r, hw, hnd, n, h => by
+    rw [wfL] at hw; rw [names_leafList] at hnd h
+    have hnd' := List.nodup_cons.mp hnd
+    have hf : (SN.leafList a t mn mx :: r).filter (·.isChoice) = r.filter (·.isChoice) := by simp [List.filter, SN.isChoice]
+    unfold actTop
+    rw [hf, inChoice_cons, iad_leafList]
+    simp only [Bool.false_or]
+    by_cases e : a = n
+    · subst e
+      simp [inChoice_false_of_notin r a hnd'.1]
+    · rw [if_neg e]
+      exact actTop_eq seen r hw.2 hnd'.2 n ((List.mem_cons.mp h).resolve_left (fun e' => e e'.symm))
+  | .container a p k :: r, hw, hnd, n, h => by
+    rw [wfL] at hw; rw [names_container] at hnd h
+    have hnd' := List.nodup_cons.mp hnd
+    have hf : (SN.container a p k :: r).filter (·.isChoice) = r.filter (·.isChoice) := by simp [List.filter, SN.isChoice]
+    unfold actTop
+    rw [hf, inChoice_cons, iad_container]
+    simp only [Bool.false_or]
+    by_cases e : a = n
+    · subst e
+      simp [inChoice_false_of_notin r a hnd'.1]
+    · rw [if_neg e]
+      exact actTop_eq seen r hw.2 hnd'.2 n ((List.mem_cons.mp h).resolve_left (fun e' => e e'.symm))
+  | .list a ks mn mx u k :: r, hw, hnd, n, h => by
+    rw [wfL] at hw; rw [names_list] at hnd h
+    have hnd' := List.nodup_cons.mp hnd
+    have hf : (SN.list a ks mn mx u k :: r).filter (·.isChoice) = r.filter (·.isChoice) := by simp [List.filter, SN.isChoice]
+    unfold actTop
+    rw [hf, inChoice_cons, iad_list]
+    simp only [Bool.false_or]
+    by_cases e : a = n
+    · subst e
+      simp [inChoice_false_of_notin r a hnd'.1]
+    · rw [if_neg e]
+      exact actTop_eq seen r hw.2 hnd'.2 n ((List.mem_cons.mp h).resolve_left (fun e' => e e'.symm))
+  | .case a k :: r, hw, _, _, _ => by rw [wfL, wfN] at hw; exact hw.1.elim
+  | .choice a b d cases :: r, hw, hnd, n, h => by
+    rw [wfL, wfN] at hw; rw [names_choice] at hnd h
+    have hf : (SN.choice a b d cases :: r).filter (·.isChoice) = .choice a b d cases :: r.filter (·.isChoice) := by
+      simp [List.filter, SN.isChoice]
+    unfold actTop
+    rw [hf, inChoice_cons, iad_choice, iad_choice]
+    by_cases hin : n ∈ cnames cases
+    · have hnr : n ∉ names r := fun hr => nodup_disj hnd hin hr
+      have hnf : n ∉ names (r.filter (·.isChoice)) := fun hh => hnr (names_filter_sub r n hh)
+      simp only [lookup_isSome_of_mem (caseKids cases) n hin, Bool.true_or, Bool.not_true, Bool.false_or, ↓reduceIte]
+      rw [iad_notin seen n false false _ hnf, iad_notin seen n true false _ hnr]
+    · have hr : n ∈ names r := (List.mem_append.mp h).resolve_left hin
+      simp only [lookup_none_of_notin (caseKids cases) n hin, Option.isSome_none, Bool.false_or, Bool.false_eq_true, ↓reduceIte]
+      exact actTop_eq seen r hw.2 (nodup_right hnd) n hr
+
+/-! ### the main induction: level by level, the model's decisions are the specification's -/
+
+/-- the statement for one body (`nodes` = the children of a container / list / case / the root) -/
+def LvlS (nodes : List (SN τ)) : Prop :=
+  ∀ (seen : List Tok) (act : Tok → Bool) (dc sc : Bool), (dc || sc) = true →
+    (∀ n ∈ names nodes, act n = isActiveDefault seen n dc sc nodes) →
+    (dataKids nodes).flatMap (gbody seen act) = defaultsS seen nodes
+
+/-- from the level statement of a body to `yangDataChildren` at a parent with that body -/
+theorem added_eq_of_lvl (kids : List (SN τ)) (hw : wfL kids) (hnd : (names kids).Nodup) (h : LvlS kids)
+    (seen : List Tok) : addedDefaults kids seen = defaultsS seen kids := by
+  rw [addedDefaults_eq]
+  exact h seen (actTop kids seen) true false rfl (actTop_eq seen kids hw hnd)
+
+theorem gbody_leaf (seen : List Tok) (act : Tok → Bool) (a : Tok) (t : τ) (d : Option Bytes) (m : Bool) (h : act a = true) :
+    gbody seen act (.leaf a t d m) = emitLeaf seen a d m := by
+  unfold gbody emitLeaf
+  simp only [SN.name, h, hasDefault_leaf, createDefault_leaf]
+  cases d <;> cases m <;> cases seen.contains a <;> simp
+
+theorem gbody_container (seen : List Tok) (act : Tok → Bool) (a : Tok) (p : Bool) (k : List (SN τ)) (h : act a = true)
+    (hw : wfL k) (hsub : createDefaults k k = defaultsS [] k) :
+    gbody seen act (.container a p k) = emitContainer seen a p k := by
+  unfold gbody emitContainer
+  simp only [SN.name, h, hasDefault_container, createDefault_container, hsub]
+  cases p with
+  | true => simp
+  | false =>
+    cases hd : anyDefault k
+    · simp [defaultsS_noDefault [] k hw hd]
+    · cases seen.contains a <;> cases (defaultsS [] k).isEmpty <;> simp
+
+theorem gbody_list (seen : List Tok) (act : Tok → Bool) (a : Tok) (ks : List Tok) (mn : Nat) (mx : Option Nat)
+    (u : List (List (List Tok))) (k : List (SN τ)) : gbody seen act (.list a ks mn mx u k) = [] := by
+  unfold gbody; simp [hasDefault]
+theorem gbody_leafList (seen : List Tok) (act : Tok → Bool) (a : Tok) (t : τ) (mn : Nat) (mx : Option Nat) :
+    gbody seen act (.leafList a t mn mx : SN τ) = [] := by
+  unfold gbody; simp [hasDefault]
+
+mutual
+theorem lvl_S : ∀ (nodes : List (SN τ)), wfL nodes → (names nodes).Nodup → LvlS nodes
+  | [], _, _ => by intro seen act dc sc _ _; simp [dataKids, defaultsS]
+  | .leaf a t d m :: r, hw, hnd => by
+    intro seen act dc sc hb h
+    rw [wfL] at hw; rw [names_leaf] at hnd h
+    have hnd' := List.nodup_cons.mp hnd
+    have hdk : dataKids (.leaf a t d m :: r) = .leaf a t d m :: dataKids r := by rw [dataKids]; simp
+    have ha : act a = true := by rw [h a (by simp), iad_leaf]; simp [hb]
+    rw [hdk, List.flatMap_cons, gbody_leaf seen act a t d m ha, defaultsS_leaf]
+    congr 1
+    apply lvl_S r hw.2 hnd'.2 seen act dc sc hb
+    intro n hn
+    rw [h n (List.mem_cons_of_mem _ hn), iad_leaf, if_neg (fun (e : a = n) => hnd'.1 (by rw [e]; exact hn))]
+  | .container a p k :: r, hw, hnd => by
+    intro seen act dc sc hb h
+    rw [wfL, wfN] at hw; rw [names_container] at hnd h
+    have hnd' := List.nodup_cons.mp hnd
+    have hdk : dataKids (.container a p k :: r) = .container a p k :: dataKids r := by rw [dataKids]; simp
+    have ha : act a = true := by rw [h a (by simp), iad_container]; simp [hb]
+    have hsub : createDefaults k k = defaultsS [] k := by
+      rw [createDefaults_eq_added k hw.1.1 hw.1.2]
+      exact added_eq_of_lvl k hw.1.1 hw.1.2 (lvl_S k hw.1.1 hw.1.2) []
+    rw [hdk, List.flatMap_cons, gbody_container seen act a p k ha hw.1.1 hsub, defaultsS_container]
+    congr 1
+    apply lvl_S r hw.2 hnd'.2 seen act dc sc hb
+    intro n hn
+    rw [h n (List.mem_cons_of_mem _ hn), iad_container, if_neg (fun (e : a = n) => hnd'.1 (by rw [e]; exact hn))]
+  | .list a ks mn mx u k :: r, hw, hnd => by
+    intro seen act dc sc hb h
+    rw [wfL] at hw; rw [names_list] at hnd h
+    have hnd' := List.nodup_cons.mp hnd
+    have hdk : dataKids (.list a ks mn mx u k :: r) = .list a ks mn mx u k :: dataKids r := by rw [dataKids]; simp
+    rw [hdk, List.flatMap_cons, gbody_list, defaultsS_list, List.nil_append]
+    apply lvl_S r hw.2 hnd'.2 seen act dc sc hb
+    intro n hn
+    rw [h n (List.mem_cons_of_mem _ hn), iad_list, if_neg (fun (e : a = n) => hnd'.1 (by rw [e]; exact hn))]
+  | .leafList a t mn mx :: r, hw, hnd => by
+    intro seen act dc sc hb h
+    rw [wfL] at hw; rw [names_leafList] at hnd h
+    have hnd' := List.nodup_cons.mp hnd
+    have hdk : dataKids (.leafList a t mn mx :: r) = .leafList a t mn mx :: dataKids r := by rw [dataKids]; simp
+    rw [hdk, List.flatMap_cons, gbody_leafList, defaultsS_leafList, List.nil_append]
+    apply lvl_S r hw.2 hnd'.2 seen act dc sc hb
+    intro n hn
+    rw [h n (List.mem_cons_of_mem _ hn), iad_leafList, if_neg (fun (e : a = n) => hnd'.1 (by rw [e]; exact hn))]
+  | .case a k :: r, hw, _ => by rw [wfL, wfN] at hw; exact hw.1.elim
+  | .choice a b d cases :: r, hw, hnd => by
+    intro seen act dc sc hb h
+    rw [wfL, wfN] at hw; rw [names_choice] at hnd h
+    rw [dataKids_choice, List.flatMap_append, defaultsS_choice]
+    have hrest : (dataKids r).flatMap (gbody seen act) = defaultsS seen r := by
+      apply lvl_S r hw.2 (nodup_right hnd) seen act dc sc hb
+      intro n hn
+      have hnc : n ∉ cnames cases := fun hc => nodup_disj hnd hc hn
+      rw [h n (List.mem_append_right _ hn), iad_choice, lookup_none_of_notin (caseKids cases) n hnc]
+      simp
+    rw [hrest]
+    congr 1
+    -- the members of this choice
+    have hact : ∀ n ∈ cnames cases, act n =
+        if activeCases cases seen then isActiveDefaultCase seen n none cases
+        else match d with
+          | some dc' => isActiveDefaultCase seen n (some dc') cases
+          | none => false := by
+      intro n hn
+      have hnr : n ∉ names r := fun hr => nodup_disj hnd hn hr
+      rw [h n (List.mem_append_left _ hn), iad_choice, lookup_isSome_of_mem (caseKids cases) n hn, hasCfg_activeCases]
+      simp only [↓reduceIte]
+      cases d with
+      | none => simp only [iad_notin seen n dc sc r hnr]
+      | some dc' => rfl
+    unfold emitChoice
+    by_cases hac : activeCases cases seen = true
+    · rw [if_pos hac]
+      apply lvl_A cases hw.1.1 (nodup_left hnd) seen act
+      intro n hn
+      rw [hact n hn, if_pos hac]
+    · rw [if_neg hac]
+      cases d with
+      | none =>
+        apply flatMap_gbody_false
+        intro x hx
+        rw [hact x.name (mem_cnames_of_mem_caseKids hx), if_neg hac]
+      | some dc' =>
+        apply lvl_D cases hw.1.1 (nodup_left hnd) hw.1.2 seen act dc'
+        · intro n hn hs
+          exact hac ((activeCases_iff cases seen).mpr ⟨n, hn, hs⟩)
+        · intro n hn
+          rw [hact n hn, if_neg hac]
+theorem lvl_A : ∀ (cases : List (SN τ)), wfC cases → (cnames cases).Nodup → ∀ (seen : List Tok) (act : Tok → Bool),
+    (∀ n ∈ cnames cases, act n = isActiveDefaultCase seen n none cases) →
+    (caseKids cases).flatMap (gbody seen act) = defaultsActive seen cases
+  | [], _, _, _, _, _ => by simp [caseKids, defaultsActive]
+  | .case a kids :: r, hw, hnd, seen, act, h => by
+    rw [wfC] at hw; rw [cnames_case] at hnd h
+    rw [caseKids_case, List.flatMap_append, defaultsActive_case]
+    congr 1
+    · by_cases hac : active kids seen = true
+      · rw [if_pos hac]
+        apply lvl_S kids hw.1 (nodup_left hnd) seen act false true rfl
+        intro n hn
+        rw [h n (List.mem_append_left _ hn), iadc_case, lookup_isSome_of_mem (dataKids kids) n hn, hasCfg_active, hac]
+        simp
+      · rw [if_neg hac]
+        apply flatMap_gbody_false
+        intro x hx
+        have hn := mem_names_of_mem_dataKids hx
+        rw [h x.name (List.mem_append_left _ hn), iadc_case, lookup_isSome_of_mem (dataKids kids) x.name hn, hasCfg_active]
+        simp [hac]
+    · apply lvl_A r hw.2 (nodup_right hnd) seen act
+      intro n hn
+      have hnk : n ∉ names kids := fun hk => nodup_disj hnd hk hn
+      rw [h n (List.mem_append_right _ hn), iadc_case, lookup_none_of_notin (dataKids kids) n hnk]
+      simp
+  | .container .. :: _, hw, _, _, _, _ => by rw [wfC] at hw; exact hw.elim
+  | .list .. :: _, hw, _, _, _, _ => by rw [wfC] at hw; exact hw.elim
+  | .leaf .. :: _, hw, _, _, _, _ => by rw [wfC] at hw; exact hw.elim
+  | .leafList .. :: _, hw, _, _, _, _ => by rw [wfC] at hw; exact hw.elim
+  | .choice .. :: _, hw, _, _, _, _ => by rw [wfC] at hw; exact hw.elim
+theorem lvl_D : ∀ (cases : List (SN τ)), wfC cases → (cnames cases).Nodup → (cases.map (·.name)).Nodup →
+    ∀ (seen : List Tok) (act : Tok → Bool) (dc' : Tok), (∀ n ∈ cnames cases, n ∉ seen) →
+    (∀ n ∈ cnames cases, act n = isActiveDefaultCase seen n (some dc') cases) →
+    (caseKids cases).flatMap (gbody seen act) = defaultsOfCase dc' cases
+  | [], _, _, _, _, _, _, _, _ => by simp [caseKids, defaultsOfCase]
+  | .case a kids :: r, hw, hnd, hcn, seen, act, dc', hns, h => by
+    rw [wfC] at hw; rw [cnames_case] at hnd h hns
+    have hcn' := List.nodup_cons.mp (by simpa [SN.name] using hcn : (a :: r.map (·.name)).Nodup)
+    rw [caseKids_case, List.flatMap_append, defaultsOfCase_case]
+    by_cases hdc : a = dc'
+    · rw [if_pos hdc]
+      have h2 : (caseKids r).flatMap (gbody seen act) = [] := by
+        apply flatMap_gbody_false
+        intro x hx
+        have hn := mem_cnames_of_mem_caseKids hx
+        have hnk : x.name ∉ names kids := fun hk => nodup_disj hnd hk hn
+        rw [h x.name (List.mem_append_right _ hn), iadc_case, lookup_none_of_notin (dataKids kids) x.name hnk]
+        simp only [Option.isSome_none, Bool.false_eq_true, ↓reduceIte]
+        apply iadc_some_false seen x.name dc' r hw.2
+        intro c hc e
+        exact hcn'.1 (hdc ▸ e ▸ List.mem_map_of_mem hc)
+      rw [h2, List.append_nil]
+      have h1 : (dataKids kids).flatMap (gbody seen act) = defaultsS seen kids := by
+        apply lvl_S kids hw.1 (nodup_left hnd) seen act true (hasCfg seen (dataKids kids)) rfl
+        intro n hn
+        rw [h n (List.mem_append_left _ hn), iadc_case, lookup_isSome_of_mem (dataKids kids) n hn]
+        simp [hdc]
+      rw [h1]
+      apply defaultsS_congr seen [] kids hw.1
+      intro n hn
+      constructor
+      · intro hs; exact (hns n (List.mem_append_left _ hn) hs).elim
+      · intro hs; cases hs
+    · rw [if_neg hdc]
+      have h1 : (dataKids kids).flatMap (gbody seen act) = [] := by
+        apply flatMap_gbody_false
+        intro x hx
+        have hn := mem_names_of_mem_dataKids hx
+        rw [h x.name (List.mem_append_left _ hn), iadc_case, lookup_isSome_of_mem (dataKids kids) x.name hn]
+        simp
+        intro e; exact (hdc e.symm).elim
+      rw [h1, List.nil_append]
+      apply lvl_D r hw.2 (nodup_right hnd) hcn'.2 seen act dc' (fun n hn => hns n (List.mem_append_right _ hn))
+      intro n hn
+      have hnk : n ∉ names kids := fun hk => nodup_disj hnd hk hn
+      rw [h n (List.mem_append_right _ hn), iadc_case, lookup_none_of_notin (dataKids kids) n hnk]
+      simp
+  | .container .. :: _, hw, _, _, _, _, _, _, _ => by rw [wfC] at hw; exact hw.elim
+  | .list .. :: _, hw, _, _, _, _, _, _, _ => by rw [wfC] at hw; exact hw.elim
+  | .leaf .. :: _, hw, _, _, _, _, _, _, _ => by rw [wfC] at hw; exact hw.elim
+  | .leafList .. :: _, hw, _, _, _, _, _, _, _ => by rw [wfC] at hw; exact hw.elim
+  | .choice .. :: _, hw, _, _, _, _, _, _, _ => by rw [wfC] at hw; exact hw.elim
+end
+
+/-- **the defaults `yangDataChildren` adds are the defaults in use** -/
+theorem addedDefaults_eq_spec (kids : List (SN τ)) (hw : wfL kids) (hnd : (names kids).Nodup) (seen : List Tok) :
+    addedDefaults kids seen = defaultsS seen kids :=
+  added_eq_of_lvl kids hw hnd (lvl_S kids hw hnd) seen
+
+/-! ### the decorated view: model = specification, hence idempotent -/
+
+theorem decorateEach_nil (top : List (SN τ)) : decorateEach top [] = [] := by rw [decorateEach]
+theorem decorateEach_cons (top : List (SN τ)) (d : DN) (r : List DN) :
+    decorateEach top (d :: r) =
+      (match lookup d.name (dataKids top) with
+       | some sn => decorateNode sn d
+       | none => d) :: decorateEach top r := by
+  conv => lhs; rw [decorateEach.eq_def]; simp only
+  cases lookup d.name (dataKids top) <;> rfl
+theorem decorateKids_eq (kids : List (SN τ)) (ds : List DN) :
+    decorateKids kids ds = decorateEach kids ds ++ addedDefaults kids (ds.map (·.name)) := by rw [decorateKids]
+theorem decorateNode_container (a : Tok) (pr : Bool) (kids : List (SN τ)) (n : Tok) (dk : List DN) (v : List Bytes) :
+    decorateNode (.container a pr kids) (.mk n dk v) = .mk n (decorateKids kids dk) v := by rw [decorateNode]
+theorem decorateNode_list (a : Tok) (ks : List Tok) (mn : Nat) (mx : Option Nat) (u : List (List (List Tok)))
+    (kids : List (SN τ)) (n : Tok) (es : List DN) (v : List Bytes) :
+    decorateNode (.list a ks mn mx u kids) (.mk n es v) = .mk n (decorateEntries kids es) v := by rw [decorateNode]
+theorem decorateNode_leaf (a : Tok) (t : τ) (dv : Option Bytes) (m : Bool) (d : DN) :
+    decorateNode (.leaf a t dv m) d = d := by cases d; simp [decorateNode]
+theorem decorateNode_leafList (a : Tok) (t : τ) (mn : Nat) (mx : Option Nat) (d : DN) :
+    decorateNode (.leafList a t mn mx) d = d := by cases d; simp [decorateNode]
+theorem decorateNode_choice (a : Tok) (b : Bool) (c : Option Tok) (k : List (SN τ)) (d : DN) :
+    decorateNode (.choice a b c k) d = d := by cases d; simp [decorateNode]
+theorem decorateNode_case (a : Tok) (k : List (SN τ)) (d : DN) :
+    decorateNode (.case a k) d = d := by cases d; simp [decorateNode]
+
+theorem decoK_of (kids : List (SN τ)) (hw : wfL kids) (hnd : (names kids).Nodup) (ds : List DN)
+    (hE : decorateEach kids ds = decorateEachS kids ds) : decorateKids kids ds = decorateKidsS kids ds := by
+  rw [decorateKids_eq, decorateKidsS_eq, hE, addedDefaults_eq_spec kids hw hnd]
+
+mutual
+theorem decoE_eq (kids : List (SN τ)) (hw : wfL kids) : ∀ (ds : List DN), decorateEach kids ds = decorateEachS kids ds
+  | [] => by rw [decorateEach_nil, decorateEachS_nil]
+  | d :: r => by
+    rw [decorateEach_cons, decorateEachS_cons, decoE_eq kids hw r]
+    congr 1
+    cases hl : lookup d.name (dataKids kids) with
+    | none => rfl
+    | some sn => exact decoN_eq sn (wfN_of_mem_dataKids kids hw sn (lookup_mem _ _ _ hl)) d
+theorem decoN_eq : ∀ (sn : SN τ), wfN sn → ∀ (d : DN), decorateNode sn d = decorateNodeS sn d
+  | .leaf .., _, d => by rw [decorateNode_leaf, decorateNodeS_leaf]
+  | .leafList .., _, d => by rw [decorateNode_leafList, decorateNodeS_leafList]
+  | .choice .., _, d => by rw [decorateNode_choice, decorateNodeS_choice]
+  | .case .., _, d => by rw [decorateNode_case, decorateNodeS_case]
+  | .container a pr kids, hw, .mk n dk v => by
+    rw [wfN] at hw
+    rw [decorateNode_container, decorateNodeS_container, decoK_of kids hw.1 hw.2 dk (decoE_eq kids hw.1 dk)]
+  | .list a ks mn mx u kids, hw, .mk n es v => by
+    rw [wfN] at hw
+    rw [decorateNode_list, decorateNodeS_list, decoEn_eq kids hw.1 hw.2 es]
+theorem decoEn_eq (kids : List (SN τ)) (hw : wfL kids) (hnd : (names kids).Nodup) : ∀ (es : List DN),
+    decorateEntries kids es = decorateEntriesS kids es
+  | [] => by rw [decorateEntries, decorateEntriesS]
+  | .mk en ek v :: r => by
+    rw [decorateEntries, decorateEntriesS, decoEn_eq kids hw hnd r, decoK_of kids hw hnd ek (decoE_eq kids hw ek)]
+end
+
+/-- **the decorated view of the model is the specification's**, for every well-formed schema and every data tree -/
+theorem decorate_eq_spec (top : List (SN τ)) (hw : wfL top) (hnd : (names top).Nodup) (root : DN) :
+    decorate top root = decorateS top root := by
+  obtain ⟨n, dk, v⟩ := root
+  simp only [decorate, decorateS]
+  rw [decoK_of top hw hnd dk (decoE_eq top hw dk)]
+
+/-- **decorating twice equals decorating once** -/
+theorem decorate_idem (top : List (SN τ)) (hw : wfL top) (hnd : (names top).Nodup) (root : DN) :
+    decorate top (decorate top root) = decorate top root := by
+  rw [decorate_eq_spec top hw hnd root, decorate_eq_spec top hw hnd, decorateS_idem top hw hnd root]
 
 end YV.DS
